@@ -876,6 +876,9 @@ func (g *gen) genProvide(s int) Op {
 		o.CB = true
 		o.CBPanic = g.pct(g.k.PCBPanic, "cbpanic")
 	}
+	if len(o.As) >= 1 && g.pct(12, "asnil") {
+		o.AsNil = true
+	}
 	if len(o.As) >= 2 && g.pct(30, "assplit") {
 		o.AsSplit = true
 	}
